@@ -120,6 +120,40 @@ def run(chk):
         if peaks[-1] > peaks[0] + SLACK:
             chk.report_oracle("peak memory grows with the size it must be independent of",
                               {"scenario": name, "args_smallest": runs[0][0], "args_largest": runs[-1][0], "input_bytes": [n for _, n in runs], "peaks": peaks})
+    # EVERY ascending -l request over sides {open, 1, 2, 3}, 1-3 bounds, in every spelling (N, N:N, N:M, :M, N:) — which algorithm serves a request is
+    # decided by code that reads these spellings (is_sortable / is_sorted / is_forward_only); the memory bound is documented for all of them
+    import itertools
+    sd = [None, 1, 2, 3]
+    one = [(l, r) for l in sd for r in sd if not (l is not None and r is not None and l > r) and not (l is None and r is None)]
+
+    def ascending(bs):
+        prev = 1
+        for k, (l, r) in enumerate(bs):
+            if (1 if l is None else l) < prev:
+                return False
+            if r is None:
+                return k == len(bs) - 1
+            prev = r
+        return True
+
+    def spellings(l, r):
+        if l is not None and l == r:
+            return [str(l), f"{l}:{r}"]
+        return [("" if l is None else str(l)) + ":" + ("" if r is None else str(r))]
+    lists = [x for x in ([[a] for a in one] + [[a, b] for a in one for b in one] + [[a, b, c] for a in one for b in one for c in one]) if ascending(x)]
+    for bs in lists:
+        for sp in itertools.product(*[spellings(l, r) for l, r in bs]):
+            b = ",".join(sp)
+            pk = []
+            for cnt in (20000, 700000):
+                p_, st, _o = mem(["bt=l", "d=0a", "j=1", "b=" + hx(b), "pat=" + hx(b"ab\n"), f"count={cnt}", "tail=" + hx(b"\n")])
+                pk.append(p_)
+                chk.evaluations += 1
+            chk.count("ascending-l-spelling")
+            chk.nontrivial_add(("asc-l", b))
+            if st != "ok" or pk[1] > pk[0] + SLACK:
+                chk.report_oracle("-l with an ascending request of positive line numbers: peak heap grows with the number of lines (or the run fails)",
+                                  {"scenario": "-l " + b + " on 20 000 and 700 000 lines 'ab'", "input_bytes": [60000, 2100000], "peaks": pk, "status": st})
     # random scenarios: option sets nobody listed by hand, measured at two sizes along the dimension the bound must not depend on
     from cases import rand_field_case
     from common import case_line
